@@ -601,6 +601,9 @@ def gen_contract(rng, n_tests=4, code_opt=None):
 #             on the sibling branch, where the failure needs a different value          (per-path substitution state)
 #   multidyn  several dynamic parameters; the failure needs a COMBINATION of lengths, each possibly different
 #             from the first / last candidate explored                                  (per-path size candidates)
+#   dynelem   the failure needs a given length AND a given value of the last element / word existing at that length,
+#             under length candidates configured in any order (--default-array-lengths 2,1,0, --array-lengths a0={1,3,2})
+#                                                                                       (room of the symbolic calldata)
 #   special   the failure sits at a point where an arithmetic operation has its special-case value (zero divisor,
 #             MIN / -1, wrap-around), reached through a symbolic operand                (abstraction + refinement)
 
@@ -651,10 +654,56 @@ def gen_reread(rng, name, codes):
     return {"name": name, "params": shape, "clauses": clauses}
 
 
-def gen_multidyn(rng, name, codes, bytes_bounds, array_bounds, combo=None):
+DEFAULT_LENS = {"array": [0, 1, 2], "bytes": [0, 65, 1024], "by_name": {}}
+
+
+def bounds_of(lens, i, t):
+    """length candidates of dynamic parameter i (halmos names it a<i>): --array-lengths a<i>={...} if given, else the
+    default list of its kind; the list is used in the order given"""
+    return list((lens.get("by_name") or {}).get(f"a{i}") or (lens["array"] if t.endswith("[]") else lens["bytes"]))
+
+
+def lens_options(lens):
+    """halmos options configuring the candidates"""
+    out = []
+    if lens["array"] != DEFAULT_LENS["array"]:
+        out += ["--default-array-lengths", ",".join(map(str, lens["array"]))]
+    if lens["bytes"] != DEFAULT_LENS["bytes"]:
+        out += ["--default-bytes-lengths", ",".join(map(str, lens["bytes"]))]
+    if lens.get("by_name"):
+        out += ["--array-lengths", ",".join(f"{k}={{{','.join(map(str, v))}}}" for k, v in sorted(lens["by_name"].items()))]
+    return out
+
+
+def gen_dynelem(rng, name, codes, lens, pick=None):
+    """the failure needs parameter i to have length n (one of its candidates, n > 0) AND its LAST element / word (the
+    one that only exists at that length) to have a given non-zero value: the symbolic content must be laid out for
+    every candidate, whatever the order in which the candidates are configured"""
+    shape = rng.choice([["uint256[]"], ["bytes"], ["uint256", "uint256[]"], ["uint256[]", "bytes"], ["string"], ["bytes", "uint256"]])
+    dyn = [i for i, t in enumerate(shape) if l3.is_dynamic(t)]
+    i = dyn[0] if pick is None else dyn[pick[0] % len(dyn)]
+    t = shape[i]
+    cands = [n for n in bounds_of(lens, i, t) if n > 0]
+    n = cands[(pick[1] if pick is not None else rng.randrange(len(cands))) % len(cands)]
+    if t.endswith("[]"):
+        c = rng.choice([42, 1, M - 1, rng.getrandbits(256) | 1])
+        body = ["eq", ["elem", i, n - 1], ["const", c]]
+    else:
+        j = (n - 1) // 32
+        k = n - 32 * j                                   # bytes of the last word that belong to the value
+        c = (rng.getrandbits(8 * k) | 1) << (8 * (32 - k))
+        body = ["eq", ["word", i, j], ["const", c]]
+    g = ["cand", ["eq", ["len", i], ["const", n]], body]
+    clauses = [[g, _violating(rng, codes)]]
+    if rng.random() < 0.3:
+        clauses.insert(0, [["gt", ["len", i], ["const", max(bounds_of(lens, i, t))]], _benign(rng, codes)])
+    return {"name": name, "params": shape, "clauses": clauses}
+
+
+def gen_multidyn(rng, name, codes, bytes_bounds, array_bounds, combo=None, lens=None):
     shape = rng.choice([["uint256[]", "uint256[]"], ["bytes", "bytes"], ["uint256[]", "bytes"], ["bytes", "uint256[]"], ["uint256", "uint256[]", "bytes"],
                         ["uint256[]", "uint256", "uint256[]"], ["string", "uint256[]"], ["uint256[]", "uint256[]", "bytes"]])
-    dyn = [(i, array_bounds if t.endswith("[]") else bytes_bounds) for i, t in enumerate(shape) if l3.is_dynamic(t)]
+    dyn = [(i, bounds_of(lens, i, t) if lens else (array_bounds if t.endswith("[]") else bytes_bounds)) for i, t in enumerate(shape) if l3.is_dynamic(t)]
     picks = [(i, (b[combo[k] % len(b)] if combo else rng.choice(b))) for k, (i, b) in enumerate(dyn)]
     conds = [["eq", ["len", i], ["const", n]] for i, n in picks]
     style = rng.choice(["and", "and", "seq", "ineq"])
@@ -695,16 +744,19 @@ def gen_special(rng, name, codes, op=None):
     return {"name": name, "params": ["uint256", "uint256"], "clauses": clauses}
 
 
-def gen_directed_contract(rng, code_opt=None, n_each=2, combos=None, ops=None):
+def gen_directed_contract(rng, code_opt=None, n_each=2, combos=None, ops=None, lens=None, picks=None):
     codes = parse_codes(code_opt)
-    bytes_bounds, array_bounds = [0, 65, 1024], [0, 1, 2]
+    lens = lens or DEFAULT_LENS
+    bytes_bounds, array_bounds = list(lens["bytes"]), list(lens["array"])
     tests = []
+    for k, pick in enumerate(picks if picks is not None else [None] * n_each):
+        tests.append(gen_dynelem(rng, f"check_de{k}", codes, lens, pick))
     for k in range(n_each):
         tests.append(gen_reread(rng, f"check_rr{k}", codes))
     for k, op in enumerate(ops if ops is not None else [None] * n_each):
         tests.append(gen_special(rng, f"check_sp{k}", codes, op))
     for k, combo in enumerate(combos if combos is not None else [None] * n_each):
-        tests.append(gen_multidyn(rng, f"check_md{k}", codes, bytes_bounds, array_bounds, combo))
+        tests.append(gen_multidyn(rng, f"check_md{k}", codes, bytes_bounds, array_bounds, combo, lens))
     return {"cname": "T", "setup": [], "tests": tests}
 
 
